@@ -285,7 +285,8 @@ CLAIM02 = dict(
 def run_c02(ctx):
     ctx.rule = ("histories of Incremental.tla with UseCache=TRUE (edits, plz-out deletion, A->B->A content moves), each replayed with dircompress off and on; "
                 "non-trivial = edit or plz-out deletion between two builds; distinct by history + cache mode")
-    cfgs = [("GEN_Incremental_cache1.cfg", {}, True), ("GEN_Incremental_rencache1.cfg", {}, True), ("GEN_Incremental_cache.cfg", {}, False)]
+    cfgs = [("GEN_Incremental_cache1.cfg", {}, True), ("GEN_Incremental_rencache1.cfg", {}, True), ("GEN_Incremental_dircache.cfg", {}, True),
+            ("GEN_Incremental_cache.cfg", {}, False)]
     common(ctx, "C02", [dict(cache=True, compress=False), dict(cache=True, compress=True, sample=150 if ctx.quick else 3000)], cfgs, quick_n=40)
 
 
